@@ -18,6 +18,7 @@ inductive WRec where
   | setEdgeProp (id key : Nat) (v : String)
   | addLabel (id l : Nat)
   | removeLabel (id l : Nat)
+  | removeNodeProp (id key : Nat)
   | txCommit
   | txAbort
   | checkpoint
@@ -44,6 +45,7 @@ def applyRec (s : Store) : WRec → Store
   | .setEdgeProp id k v => s.setEdgeProp id k v
   | .addLabel id l => (s.addLabel id l).1
   | .removeLabel id l => (s.removeLabel id l).1
+  | .removeNodeProp id k => (s.removeNodeProp id k).1
   | _ => s
 
 /-- `GrafeoDB::open` on an existing directory: recover, replay, keep appending to the same file. -/
@@ -74,6 +76,7 @@ inductive LOp where
   | setEdgeProp (id key : Nat) (v : String)
   | addLabel (id l : Nat)
   | removeLabel (id l : Nat)
+  | removeNodeProp (id key : Nat)
   | checkpoint
   | closeReopen
   deriving Repr
@@ -100,6 +103,11 @@ def Db.api (d : Db) : LOp → Db
   | .removeLabel id l =>
     let (s', ok) := d.live.removeLabel id l
     { d with live := s', log := if ok then d.log ++ [.removeLabel id l] else d.log }
+  | .removeNodeProp id k =>
+    -- `remove_node_property`: logged when something was removed (repaired code; the pinned code
+    -- logged nothing, so the property was back after reopen)
+    let (s', old) := d.live.removeNodeProp id k
+    { d with live := s', log := if old.isSome then d.log ++ [.removeNodeProp id k] else d.log }
   | .checkpoint => d.walCheckpoint
   | .closeReopen => d.close.reopen
 
